@@ -468,19 +468,28 @@ impl<'a, C: OrdColl> OrdSession<'a, C> {
         k * 1000 + self.version
     }
     fn obs_json(&mut self) -> String {
-        let mut o = String::from("\"obs\":[");
-        let mut first = true;
-        for k in 0..=self.keys + 1 {
-            if let Some((rk, v)) = self.c.get(k) {
-                if !first {
-                    o.push(',');
+        let keys = self.keys;
+        let c = &self.c;
+        self.tr.pre("\"op\":\"obs-sweep\",\"out\":\"aborted\"");
+        let r = observe(0, || {
+            let mut o = String::from("\"obs\":[");
+            let mut first = true;
+            for k in 0..=keys + 1 {
+                if let Some((rk, v)) = c.get(k) {
+                    if !first {
+                        o.push(',');
+                    }
+                    first = false;
+                    let _ = write!(o, "[{},{},{}]", k, rk, v);
                 }
-                first = false;
-                let _ = write!(o, "[{},{},{}]", k, rk, v);
             }
+            let _ = write!(o, "],\"oe\":{}", c.is_empty() as u8);
+            o
+        });
+        match r.out {
+            Outcome::Ok(o) => o,
+            _ => "\"obspanic\":1".to_string(),
         }
-        let _ = write!(o, "],\"oe\":{}", self.c.is_empty() as u8);
-        o
     }
     fn state_fields(&mut self, force_obs: bool) -> String {
         if C::HAS_SNAP {
@@ -496,33 +505,61 @@ impl<'a, C: OrdColl> OrdSession<'a, C> {
     pub fn load(&mut self, path: &[POp], cap: usize) {
         assert!(C::HAS_SNAP);
         self.cap = cap;
-        self.c = C::make(cap);
         self.mine.clear();
         self.dead = false;
-        for op in path {
-            match op {
-                POp::Ins { k, v } => {
-                    self.c.insert(*k, *v);
-                    self.mine.insert(*k);
+        // the replay is not logged call by call, but it is still the code under test: a panic inside
+        // it must not take the harness down (journal mode records it as one pseudo call)
+        self.tr.pre("\"op\":\"load-replay\",\"out\":\"aborted\"");
+        let mut mine = BTreeSet::new();
+        let o = observe(0, || {
+            let mut c = C::make(cap);
+            for op in path {
+                match op {
+                    POp::Ins { k, v } => {
+                        c.insert(*k, *v);
+                        mine.insert(*k);
+                    }
+                    POp::Del { k } => {
+                        c.delete(*k);
+                        mine.remove(k);
+                    }
+                    POp::DelHK { k } => {
+                        let h = c.fil(*k);
+                        if h != EMPTY_REF {
+                            c.delete_by_index(h);
+                        }
+                        mine.remove(k);
+                    }
+                    POp::WriteK { k, v } => {
+                        let h = c.fil(*k);
+                        if h != EMPTY_REF {
+                            c.write(h, *v);
+                        }
+                    }
+                    POp::Clear => {
+                        c.clear();
+                        mine.clear();
+                    }
+                    POp::Queries => {}
                 }
-                POp::Del { k } => {
-                    self.c.delete(*k);
-                    self.mine.remove(k);
+            }
+            c
+        });
+        match o.out {
+            Outcome::Ok(c) => {
+                self.c = c;
+                self.mine = mine;
+            }
+            _ => {
+                // replay the path again, this time logged, so that the failing call becomes an event
+                self.reset(cap);
+                for op in path {
+                    if self.dead {
+                        break;
+                    }
+                    self.apply_path_op(op);
                 }
-                POp::DelHK { k } => {
-                    let h = self.c.fil(*k);
-                    self.c.delete_by_index(h);
-                    self.mine.remove(k);
-                }
-                POp::WriteK { k, v } => {
-                    let h = self.c.fil(*k);
-                    self.c.write(h, *v);
-                }
-                POp::Clear => {
-                    self.c.clear();
-                    self.mine.clear();
-                }
-                POp::Queries => {}
+                return;
             }
         }
         let snap = self.c.snap_json();
